@@ -76,6 +76,16 @@ PROPS = {
                  "'fails loudly': update_* are proved panic-free exactly when every referenced id has an image; the converse (a missing image panics rather than writing an index) is by inspection of the three `None => panic!` arms"],
         "design_ref": "DESIGN.md §4 V2 V3, §5 C09",
     },
+    "C24": {
+        "title": "Opcode helpers emit exactly the named instruction",
+        "units": ["V9_opcode", "V9b_conv"],
+        "obligations": ["V9_opcode.Opcode.*", "V9_opcode.MacroOpcode.*", "V9_opcode.fn:Opcode::*", "V9_opcode.fn:MacroOpcode::*",
+                        "V9b_conv.*.into_wasmparser.*", "V9b_conv.fn:* as From::from"],
+        "glue": ["which list `inject` appends to is the receiver's business (FunctionBuilder / iterators: unit V4)",
+                 "DataType -> ValType inside a block type and f32/f64 -> Ieee32/Ieee64 are abstract here (uninterpreted valtype_of / ieee32_of / ieee64_of); decided by the Kani units K1/K4 when claimed"],
+        "design_ref": "DESIGN.md §4 K2 (moved to Verus: V9), §5 C24",
+        "level_text": "Each of the 200 helpers is proved, for all immediates, to append exactly one operator - the variant wasmparser's own naming assigns to the helper's name - with every immediate passed through unchanged (u32_const/u64_const: the two's-complement reinterpretation `as`).",
+    },
     "C25": {
         "title": "Iterators visit every instruction exactly once in order",
         "units": ["V5_iter"],
